@@ -115,6 +115,9 @@ impl Auth {
         if !q.omit.contains(&"signedheaders") {
             let mut sh = self.signed.clone();
             sh.sort();
+            if q.unsorted_signed {
+                sh.reverse();
+            }
             push(&mut v, "X-Amz-SignedHeaders", sh.join(";").into_bytes());
         }
         if let Some(t) = &self.token {
@@ -176,6 +179,9 @@ pub struct Quirks {
     pub header_param_fillers: usize,
     /// empty elements in the Authorization parameter list (", ," / ",,"): skipped by the parser
     pub header_param_empties: usize,
+    /// the client writes its SignedHeaders list in another order than sorted (the list is a set:
+    /// the verifier orders it)
+    pub unsorted_signed: bool,
     /// extra Authorization headers: (value, before the real one)
     pub dup_authorization: Vec<(Vec<u8>, bool)>,
     /// repeated X-Amz-* query parameters: (name, value, before the real one). These are part of
@@ -702,6 +708,9 @@ pub fn render(m: &Message, t: &mut Tape, o: &RenderOpts) -> Wire {
         if !q.omit.contains(&"signedheaders") {
             let mut sh = a.signed.clone();
             sh.sort();
+            if q.unsorted_signed {
+                sh.reverse();
+            }
             push(&mut params, "SignedHeaders", sh.join(";"));
         }
         if !q.omit.contains(&"signature") {
